@@ -1,7 +1,7 @@
 /-
   Specification side of C10 / C07.
 
-  (a) live view: a plain POSIX tree.  The namespace is a flat map `path ↦ file id | dir id`
+  (a) live view (`Live`, `lStep`): a plain POSIX tree.  The namespace is a flat map `path ↦ file id | dir id`
       (the root is implicit, dir id 0); file contents live in a map keyed by file id, so an open
       handle, a rename or an unlink never confuse two files that happened to share a name.
   (b) durable image (inode level): per directory id the set of *durable* children
@@ -29,16 +29,23 @@ structure SHandle where
   cursor : Nat
   deriving DecidableEq, Repr, Inhabited
 
-structure Spec where
-  ents : List (Path × Ent) := []            -- live namespace (root implicit)
-  live : List (Nat × Bytes) := []           -- live content per file id
-  dur : List (Nat × Bytes) := []            -- content at the last data sync per file id
-  dents : List ((Nat × Nat) × Ent) := []    -- durable children: (dir id, name) ↦ entry
-  wlog : List (Nat × Nat × Bytes) := []     -- unsynced writes (file id, offset, data), in order
+/-- (a) the live POSIX tree -/
+structure Live where
+  ents : List (Path × Ent) := []            -- namespace (root implicit)
+  live : List (Nat × Bytes) := []           -- content per file id
   next : Nat := 1
   handles : List (Nat × SHandle) := []
   deriving DecidableEq, Repr, Inhabited
 
+/-- (a) + (b): the live tree and the inode-level durable image -/
+structure Spec where
+  l : Live := {}
+  dur : List (Nat × Bytes) := []            -- content at the last data sync per file id
+  dents : List ((Nat × Nat) × Ent) := []    -- durable children: (dir id, name) ↦ entry
+  wlog : List (Nat × Nat × Bytes) := []     -- unsynced writes (file id, offset, data), in order
+  deriving DecidableEq, Repr, Inhabited
+
+def Live.init : Live := {}
 def Spec.init : Spec := {}
 
 def nlookup {α : Type} (k : Nat) : List (Nat × α) → Option α
@@ -48,61 +55,54 @@ def nlookup {α : Type} (k : Nat) : List (Nat × α) → Option α
 def ninsert {α : Type} (k : Nat) (v : α) (l : List (Nat × α)) : List (Nat × α) :=
   (l.filter fun kv => kv.1 != k) ++ [(k, v)]
 
-def entAt (sp : Spec) (p : Path) : Option Ent :=
+def entAt (sp : Live) (p : Path) : Option Ent :=
   if p = [] then some (.dir 0)
   else match sp.ents.find? (fun kv => kv.1 == p) with
     | some kv => some kv.2
     | none => none
 
-def isDirAt (sp : Spec) (p : Path) : Bool :=
+def isDirAt (sp : Live) (p : Path) : Bool :=
   match entAt sp p with
   | some (.dir _) => true
   | _ => false
 
-def sParentIsDir (sp : Spec) (p : Path) : Bool :=
+def sParentIsDir (sp : Live) (p : Path) : Bool :=
   match parent p with
   | none => true
   | some d => isDirAt sp d
 
-def liveContent (sp : Spec) (id : Nat) : Bytes := (nlookup id sp.live).getD []
+def liveContent (sp : Live) (id : Nat) : Bytes := (nlookup id sp.live).getD []
 
-def sChildren (sp : Spec) (p : Path) : List (Path × Ent) := sp.ents.filter fun kv => isChildOf kv.1 p
+def sChildren (sp : Live) (p : Path) : List (Path × Ent) := sp.ents.filter fun kv => isChildOf kv.1 p
 
-def sChildNames (sp : Spec) (p : Path) : List Nat := sortDedup ((sChildren sp p).map fun kv => kv.1.getLastD 0)
+def sChildNames (sp : Live) (p : Path) : List Nat := sortDedup ((sChildren sp p).map fun kv => kv.1.getLastD 0)
 
-def setEnt (sp : Spec) (p : Path) (e : Ent) : Spec :=
+def setEnt (sp : Live) (p : Path) (e : Ent) : Live :=
   { sp with ents := (sp.ents.filter fun kv => kv.1 != p) ++ [(p, e)] }
 
-def delEnt (sp : Spec) (p : Path) : Spec := { sp with ents := sp.ents.filter fun kv => kv.1 != p }
+def delEnt (sp : Live) (p : Path) : Live := { sp with ents := sp.ents.filter fun kv => kv.1 != p }
 
 /-- `q` is `p` or lies below `p` -/
 def hasPrefix (p q : Path) : Bool := p.isPrefixOf q
 
-def sView (sp : Spec) (p : Path) : View :=
+def sView (sp : Live) (p : Path) : View :=
   match entAt sp p with
   | some (.file id) => .file (liveContent sp id).length (liveContent sp id)
   | some (.dir _) => .dir (sChildNames sp p)
   | none => .none
 
-def sGetSlot (sp : Spec) (i : Nat) : Option SHandle := nlookup i sp.handles
-def sDropSlot (sp : Spec) (i : Nat) : Spec := { sp with handles := sp.handles.filter fun kv => kv.1 != i }
-def sSetSlot (sp : Spec) (i : Nat) (h : SHandle) : Spec := { sp with handles := ninsert i h sp.handles }
+def sGetSlot (sp : Live) (i : Nat) : Option SHandle := nlookup i sp.handles
+def sDropSlot (sp : Live) (i : Nat) : Live := { sp with handles := sp.handles.filter fun kv => kv.1 != i }
+def sSetSlot (sp : Live) (i : Nat) (h : SHandle) : Live := { sp with handles := ninsert i h sp.handles }
 
-/-- fsync of one file id -/
-def sFsync (sp : Spec) (id : Nat) : Spec :=
-  { sp with dur := ninsert id (liveContent sp id) sp.dur, wlog := sp.wlog.filter fun w => w.1 != id }
+def sWrite (sp : Live) (id off : Nat) (d : Bytes) : Live :=
+  if d.isEmpty then sp else { sp with live := ninsert id (writeAt (liveContent sp id) off d) sp.live }
 
-def sWrite (sp : Spec) (id off : Nat) (d : Bytes) (coin : Bool) : Spec :=
-  let sp1 := if d.isEmpty then sp else
-    { sp with live := ninsert id (writeAt (liveContent sp id) off d) sp.live, wlog := sp.wlog ++ [(id, off, d)] }
-  if coin then sFsync sp1 id else sp1
-
-def sSetLen (sp : Spec) (id n : Nat) (coin : Bool) : Spec :=
-  let sp1 := { sp with live := ninsert id (resize (liveContent sp id) n) sp.live }
-  if coin then sFsync sp1 id else sp1
+def sSetLen (sp : Live) (id n : Nat) : Live :=
+  { sp with live := ninsert id (resize (liveContent sp id) n) sp.live }
 
 /-- open(2) on the namespace; returns the file id -/
-def sOpen (sp : Spec) (p : Path) (fl : Flags) : Except Err (Spec × Nat) :=
+def sOpen (sp : Live) (p : Path) (fl : Flags) : Except Err (Live × Nat) :=
   match entAt sp p with
   | some (.file id) =>
     if fl.n then .error .alreadyexists
@@ -120,30 +120,30 @@ def sOpen (sp : Spec) (p : Path) (fl : Flags) : Except Err (Spec × Nat) :=
         .ok ({ (setEnt sp p (.file id)) with live := ninsert id [] sp.live, next := id + 1 }, id)
     else .error .notfound
 
-def sMkdir (sp : Spec) (p : Path) : Except Err Spec :=
+def sMkdir (sp : Live) (p : Path) : Except Err Live :=
   if !(sParentIsDir sp p) then .error .notfound
   else if (entAt sp p).isSome then .error .alreadyexists
   else .ok { (setEnt sp p (.dir sp.next)) with next := sp.next + 1 }
 
-def sRmdir (sp : Spec) (p : Path) : Except Err Spec :=
+def sRmdir (sp : Live) (p : Path) : Except Err Live :=
   if !(isDirAt sp p) then .error .notfound
   else if !(sChildren sp p).isEmpty then .error .notempty
   else .ok (delEnt sp p)
 
-def sUnlink (sp : Spec) (p : Path) : Except Err Spec :=
+def sUnlink (sp : Live) (p : Path) : Except Err Live :=
   match entAt sp p with
   | some (.file _) => .ok (delEnt sp p)
   | _ => .error .notfound
 
 def rebase (p q x : Path) : Path := q ++ x.drop p.length
 
-def sRename (sp : Spec) (p q : Path) : Except Err Spec :=
+def sRename (sp : Live) (p q : Path) : Except Err Live :=
   if !(sParentIsDir sp q) then .error .notfound
   else match entAt sp p with
     | some (.file id) =>
       if isDirAt sp q then .error .isdir
       else .ok (setEnt (delEnt sp p) q (.file id))
-    | some (.dir id) =>
+    | some (.dir _) =>
       match entAt sp q with
       | some (.file _) => .error .notdir
       | some (.dir _) =>
@@ -152,15 +152,14 @@ def sRename (sp : Spec) (p q : Path) : Except Err Spec :=
           let sp1 := delEnt sp q
           .ok { sp1 with ents := sp1.ents.map fun kv => if hasPrefix p kv.1 then (rebase p q kv.1, kv.2) else kv }
       | none =>
-        let _ := id
         .ok { sp with ents := sp.ents.map fun kv => if hasPrefix p kv.1 then (rebase p q kv.1, kv.2) else kv }
     | none => .error .notfound
 
-def sRmdirAll (sp : Spec) (p : Path) : Except Err Spec :=
+def sRmdirAll (sp : Live) (p : Path) : Except Err Live :=
   if !(isDirAt sp p) then .error .notfound
   else .ok { sp with ents := sp.ents.filter fun kv => !(hasPrefix p kv.1) }
 
-def sMkdirAllRun (sp : Spec) : List Path → Except Err Spec
+def sMkdirAllRun (sp : Live) : List Path → Except Err Live
   | [] => .ok sp
   | d :: r =>
     if (entAt sp d).isSome then sMkdirAllRun sp r
@@ -170,44 +169,175 @@ def sMkdirAllRun (sp : Spec) : List Path → Except Err Spec
 
 def prefixes (p : Path) : List Path := (List.range (p.length + 1)).map fun n => p.take n
 
-def dirIdAt (sp : Spec) (p : Path) : Option Nat :=
+def dirIdAt (sp : Live) (p : Path) : Option Nat :=
   match entAt sp p with
   | some (.dir id) => some id
   | _ => none
 
-/-- where an entry currently lives: (parent dir id, name) -/
-def locOf (sp : Spec) (e : Ent) : Option (Nat × Nat) :=
-  match sp.ents.find? (fun kv => kv.2 == e) with
-  | none => none
-  | some kv =>
-    match parent kv.1 with
-    | none => none
-    | some par =>
-      match entAt sp par with
-      | some (.dir pid) => some (pid, kv.1.getLastD 0)
-      | _ => none
+def lOfExcept (sp : Live) (r : Except Err Live) : Live × Obs :=
+  match r with
+  | .ok s => (s, .ok)
+  | .error e => (sp, .err e)
+
+/-- one call on the plain POSIX tree.  Syncs change nothing; `crash` is not a live operation
+    (it is handled by `sStep`) and is a no-op here. -/
+def lStep (sp : Live) (op : Op) : Live × Obs :=
+  match op with
+  | .open slot p fl =>
+    let sp0 := sDropSlot sp slot
+    match sOpen sp0 p fl with
+    | .error e => (sp0, .err e)
+    | .ok (sp1, id) =>
+      (sSetSlot sp1 slot { fid := id, readable := fl.r, writable := fl.w || fl.a, append := fl.a, cursor := 0 }, .ok)
+  | .close slot =>
+    match sGetSlot sp slot with
+    | none => (sp, .noslot)
+    | some _ => (sDropSlot sp slot, .ok)
+  | .writeAt slot off d =>
+    match sGetSlot sp slot with
+    | none => (sp, .noslot)
+    | some h =>
+      if !h.writable then (sp, .err .permissiondenied)
+      else (sWrite sp h.fid off d, .okN d.length)
+  | .readAt slot off len =>
+    match sGetSlot sp slot with
+    | none => (sp, .noslot)
+    | some h =>
+      if !h.readable then (sp, .err .permissiondenied)
+      else (sp, .data (((liveContent sp h.fid).drop off).take len))
+  | .write slot d =>
+    match sGetSlot sp slot with
+    | none => (sp, .noslot)
+    | some h =>
+      if !h.writable then (sp, .err .permissiondenied)
+      else
+        let off := if h.append then (liveContent sp h.fid).length else h.cursor
+        (sSetSlot (sWrite sp h.fid off d) slot { h with cursor := off + d.length }, .okN d.length)
+  | .read slot len =>
+    match sGetSlot sp slot with
+    | none => (sp, .noslot)
+    | some h =>
+      if !h.readable then (sp, .err .permissiondenied)
+      else
+        let b := ((liveContent sp h.fid).drop h.cursor).take len
+        (sSetSlot sp slot { h with cursor := h.cursor + b.length }, .data b)
+  | .seek slot whence off =>
+    match sGetSlot sp slot with
+    | none => (sp, .noslot)
+    | some h =>
+      let base : Int := if whence = 0 then 0 else if whence = 1 then (h.cursor : Int) else ((liveContent sp h.fid).length : Int)
+      let np := base + off
+      if np < 0 then (sp, .err .invalidinput)
+      else (sSetSlot sp slot { h with cursor := np.toNat }, .okN np.toNat)
+  | .setLen slot n =>
+    match sGetSlot sp slot with
+    | none => (sp, .noslot)
+    | some h =>
+      if !h.writable then (sp, .err .permissiondenied)
+      else (sSetLen sp h.fid n, .ok)
+  | .syncAll slot =>
+    match sGetSlot sp slot with
+    | none => (sp, .noslot)
+    | some _ => (sp, .ok)
+  | .syncData slot =>
+    match sGetSlot sp slot with
+    | none => (sp, .noslot)
+    | some _ => (sp, .ok)
+  | .hmeta slot =>
+    match sGetSlot sp slot with
+    | none => (sp, .noslot)
+    | some h => (sp, .file (liveContent sp h.fid).length)
+  | .mkdir p => lOfExcept sp (sMkdir sp p)
+  | .mkdirAll p => lOfExcept sp (sMkdirAllRun sp (prefixes p).tail)
+  | .rmdir p => lOfExcept sp (sRmdir sp p)
+  | .rmdirAll p => lOfExcept sp (sRmdirAll sp p)
+  | .unlink p => lOfExcept sp (sUnlink sp p)
+  | .rename p q => lOfExcept sp (sRename sp p q)
+  | .syncDir p => if isDirAt sp p then (sp, .ok) else (sp, .err .notfound)
+  | .readDir p =>
+    if isDirAt sp p then (sp, .entries (sChildNames sp p)) else (sp, .err .notfound)
+  | .stat p =>
+    match entAt sp p with
+    | some (.file id) => (sp, .file (liveContent sp id).length)
+    | some (.dir _) => (sp, .dir)
+    | none => (sp, .err .notfound)
+  | .exists p => (sp, .bool (entAt sp p).isSome)
+  | .readFile p =>
+    match entAt sp p with
+    | some (.file id) => (sp, .data (liveContent sp id))
+    | _ => (sp, .err .notfound)
+  | .writeFile p d =>
+    match sOpen sp p { w := true, c := true, t := true } with
+    | .error e => (sp, .err e)
+    | .ok (sp1, id) => (sWrite sp1 id 0 d, .ok)
+  | .dump pool => (sp, .dump (([] :: pool).map fun p => (p, sView sp p)))
+  | .crash => (sp, .ok)
+
+def lRun : Live → List Op → List Obs
+  | _, [] => []
+  | sp, op :: r => (lStep sp op).2 :: lRun (lStep sp op).1 r
+
+/-! ### (b) the durable image -/
+
+/-- fsync of one file id: the durable content becomes the live content -/
+def sFsync (l : Live) (sp : Spec) (id : Nat) : Spec :=
+  { sp with dur := ninsert id (liveContent l id) sp.dur, wlog := sp.wlog.filter fun w => w.1 != id }
 
 /-- fsync of a directory: its durable children become its live children.  Following the crate's
     model an entry that was renamed *into* the directory loses its old durable name at the same time
     (the rename is flushed as one op); an entry renamed *out* of it is simply no longer durable here
     (it becomes durable at its new place only when that parent is synced).  The directory's *own*
     entry becomes durable if the parent has no durable entry of that name. -/
-def sSyncDir (sp : Spec) (p : Path) : Except Err Spec :=
-  match dirIdAt sp p with
-  | none => .error .notfound
+def sSyncDir (l : Live) (sp : Spec) (p : Path) : Spec :=
+  match dirIdAt l p with
+  | none => sp
   | some id =>
-    let kids : List ((Nat × Nat) × Ent) := (sChildren sp p).map fun kv => ((id, kv.1.getLastD 0), kv.2)
+    let kids : List ((Nat × Nat) × Ent) := (sChildren l p).map fun kv => ((id, kv.1.getLastD 0), kv.2)
     let others := sp.dents.filter fun kv => kv.1.1 != id && !(kids.any fun k => k.2 == kv.2)
     let d1 := others ++ kids
     let d2 := match parent p with
       | none => d1
       | some par =>
-        match dirIdAt sp par with
+        match dirIdAt l par with
         | none => d1
         | some pid =>
           let key := (pid, p.getLastD 0)
           if d1.any (fun kv => kv.1 == key) then d1 else d1 ++ [(key, .dir id)]
-    .ok { sp with dents := d2 }
+    { sp with dents := d2 }
+
+/-- the durable-side bookkeeping of one (non-crash) op; `l` is the live tree before the op,
+    `l'` after it, `o` its result -/
+def dStep (sp : Spec) (l l' : Live) (op : Op) (o : Obs) (ora : Ora) : Spec :=
+  let logWrite (id off : Nat) (d : Bytes) : Spec :=
+    let sp1 := if d.isEmpty then sp else { sp with wlog := sp.wlog ++ [(id, off, d)] }
+    if ora.coin then sFsync l' sp1 id else sp1
+  match op with
+  | .writeAt slot off d =>
+    match sGetSlot l slot, o with
+    | some h, .okN _ => logWrite h.fid off d
+    | _, _ => sp
+  | .write slot d =>
+    match sGetSlot l slot, o with
+    | some h, .okN _ => logWrite h.fid (if h.append then (liveContent l h.fid).length else h.cursor) d
+    | _, _ => sp
+  | .setLen slot _ =>
+    match sGetSlot l slot, o with
+    | some h, .ok => if ora.coin then sFsync l' sp h.fid else sp
+    | _, _ => sp
+  | .writeFile p d =>
+    match entAt l' p, o with
+    | some (.file id), .ok => logWrite id 0 d
+    | _, _ => sp
+  | .syncAll slot =>
+    match sGetSlot l slot with
+    | some h => sFsync l sp h.fid
+    | none => sp
+  | .syncData slot =>
+    match sGetSlot l slot with
+    | some h => sFsync l sp h.fid
+    | none => sp
+  | .syncDir p => sSyncDir l sp p
+  | _ => sp
 
 /-- rebuild the namespace from the durable children maps, breadth first from the root -/
 def rebuild (dents : List ((Nat × Nat) × Ent)) : Nat → List (Path × Nat) → List (Path × Ent)
@@ -242,105 +372,16 @@ def sCrash (sp : Spec) (block : Option Nat) (torn : List Nat) : Spec :=
   let dur1 := match block with
     | some b => sTorn reach b sp.wlog torn sp.dur
     | none => sp.dur
-  { ents := ents, live := dur1, dur := dur1, dents := sp.dents, wlog := [], next := sp.next, handles := [] }
+  { l := { ents := ents, live := dur1, next := sp.l.next, handles := [] },
+    dur := dur1, dents := sp.dents, wlog := [] }
 
-def sOfExcept (sp : Spec) (r : Except Err Spec) : Spec × Obs :=
-  match r with
-  | .ok s => (s, .ok)
-  | .error e => (sp, .err e)
-
-/-- one call on the POSIX / durable-image specification -/
+/-- one call on the specification: the live tree steps by `lStep`, the durable image by `dStep` -/
 def sStep (cfg : Cfg) (sp : Spec) (op : Op) (ora : Ora) : Spec × Obs :=
   match op with
-  | .open slot p fl =>
-    let sp0 := sDropSlot sp slot
-    match sOpen sp0 p fl with
-    | .error e => (sp0, .err e)
-    | .ok (sp1, id) =>
-      (sSetSlot sp1 slot { fid := id, readable := fl.r, writable := fl.w || fl.a, append := fl.a, cursor := 0 }, .ok)
-  | .close slot =>
-    match sGetSlot sp slot with
-    | none => (sp, .noslot)
-    | some _ => (sDropSlot sp slot, .ok)
-  | .writeAt slot off d =>
-    match sGetSlot sp slot with
-    | none => (sp, .noslot)
-    | some h =>
-      if !h.writable then (sp, .err .permissiondenied)
-      else (sWrite sp h.fid off d ora.coin, .okN d.length)
-  | .readAt slot off len =>
-    match sGetSlot sp slot with
-    | none => (sp, .noslot)
-    | some h =>
-      if !h.readable then (sp, .err .permissiondenied)
-      else (sp, .data (((liveContent sp h.fid).drop off).take len))
-  | .write slot d =>
-    match sGetSlot sp slot with
-    | none => (sp, .noslot)
-    | some h =>
-      if !h.writable then (sp, .err .permissiondenied)
-      else
-        let off := if h.append then (liveContent sp h.fid).length else h.cursor
-        (sSetSlot (sWrite sp h.fid off d ora.coin) slot { h with cursor := off + d.length }, .okN d.length)
-  | .read slot len =>
-    match sGetSlot sp slot with
-    | none => (sp, .noslot)
-    | some h =>
-      if !h.readable then (sp, .err .permissiondenied)
-      else
-        let b := ((liveContent sp h.fid).drop h.cursor).take len
-        (sSetSlot sp slot { h with cursor := h.cursor + b.length }, .data b)
-  | .seek slot whence off =>
-    match sGetSlot sp slot with
-    | none => (sp, .noslot)
-    | some h =>
-      let base : Int := if whence = 0 then 0 else if whence = 1 then (h.cursor : Int) else ((liveContent sp h.fid).length : Int)
-      let np := base + off
-      if np < 0 then (sp, .err .invalidinput)
-      else (sSetSlot sp slot { h with cursor := np.toNat }, .okN np.toNat)
-  | .setLen slot n =>
-    match sGetSlot sp slot with
-    | none => (sp, .noslot)
-    | some h =>
-      if !h.writable then (sp, .err .permissiondenied)
-      else (sSetLen sp h.fid n ora.coin, .ok)
-  | .syncAll slot =>
-    match sGetSlot sp slot with
-    | none => (sp, .noslot)
-    | some h => (sFsync sp h.fid, .ok)
-  | .syncData slot =>
-    match sGetSlot sp slot with
-    | none => (sp, .noslot)
-    | some h => (sFsync sp h.fid, .ok)
-  | .hmeta slot =>
-    match sGetSlot sp slot with
-    | none => (sp, .noslot)
-    | some h => (sp, .file (liveContent sp h.fid).length)
-  | .mkdir p => sOfExcept sp (sMkdir sp p)
-  | .mkdirAll p => sOfExcept sp (sMkdirAllRun sp (prefixes p).tail)
-  | .rmdir p => sOfExcept sp (sRmdir sp p)
-  | .rmdirAll p => sOfExcept sp (sRmdirAll sp p)
-  | .unlink p => sOfExcept sp (sUnlink sp p)
-  | .rename p q => sOfExcept sp (sRename sp p q)
-  | .syncDir p => sOfExcept sp (sSyncDir sp p)
-  | .readDir p =>
-    if isDirAt sp p then (sp, .entries (sChildNames sp p)) else (sp, .err .notfound)
-  | .stat p =>
-    match entAt sp p with
-    | some (.file id) => (sp, .file (liveContent sp id).length)
-    | some (.dir _) => (sp, .dir)
-    | none => (sp, .err .notfound)
-  | .exists p => (sp, .bool (entAt sp p).isSome)
-  | .readFile p =>
-    match entAt sp p with
-    | some (.file id) => (sp, .data (liveContent sp id))
-    | _ => (sp, .err .notfound)
-  | .writeFile p d =>
-    match sOpen sp p { w := true, c := true, t := true } with
-    | .error e => (sp, .err e)
-    | .ok (sp1, id) => (sWrite sp1 id 0 d ora.coin, .ok)
-  | .dump pool => (sp, .dump (([] :: pool).map fun p => (p, sView sp p)))
   | .crash => (sCrash sp cfg.block ora.torn, .ok)
+  | _ =>
+    let r := lStep sp.l op
+    ({ (dStep sp sp.l r.1 op r.2 ora) with l := r.1 }, r.2)
 
 def sRun (cfg : Cfg) : Spec → List (Op × Ora) → List Obs
   | _, [] => []
@@ -353,7 +394,7 @@ def sRunSt (cfg : Cfg) : Spec → List (Op × Ora) → Spec
   | sp, (op, ora) :: r => sRunSt cfg (sStep cfg sp op ora).1 r
 
 /-- every proper ancestor of `p` is a directory of the (post-crash) tree -/
-def ancestorsAreDirs (sp : Spec) (p : Path) : Bool :=
+def ancestorsAreDirs (sp : Live) (p : Path) : Bool :=
   (List.range p.length).all fun n => isDirAt sp (p.take n)
 
 end TV.Fs
